@@ -1,9 +1,9 @@
 package main
 
 import (
-	"sort"
 	"fmt"
 	"os"
+	"sort"
 	"strings"
 )
 
